@@ -448,6 +448,18 @@ fn chunk_mutants<R: Rng>(run: &mut Runner, rng: &mut R, base: &[u8], singles: bo
             }
         }
     }
+    // one bit in each stored CRC word: every combination (the two words are checked separately; a
+    // combined comparison could let errors cancel)
+    if singles {
+        let (h0, p0) = (16 * 8, (base.len() - 4) * 8);
+        for i in 0..32 {
+            for j in 0..32 {
+                if i == j || base.len() <= 60 {
+                    emit_mut(run, "chunk", "flip2crc".into(), flip(base, &[h0 + i, p0 + j]));
+                }
+            }
+        }
+    }
     for k in 0..pairs {
         let a = rng.gen_range(0..nb);
         // half of the pairs inside a 64-bit window, half anywhere (incl. across the two codewords)
